@@ -90,9 +90,11 @@ def main():
                 d = f.data if isinstance(f.data, dict) else {}
                 ins[t] = {k: d.get(k) for k in ('o', 'oi', 'seq', 'tp', 'c')} if 'o' in d else {'hidden': sorted(d)[:4]}
                 if 'o' in d:
-                    m = W.frame_matches_token(f)
+                    m = W.frame_matches_token(f, raw_only=scn.get('outputs_jpg') is False)
                     if m:
                         bad.append((t, m))
+                if beh.get('touch_jpg') and f.has_image:
+                    f.jpg
             self._log('process', n=self.vn, ins=ins, bad=bad or None)
             self._work()
             if spec['role'] == 'sink':
